@@ -85,6 +85,8 @@ func newCallsEnv(t *tr.Writer, c callsCase) *callsEnv {
 	e.svc = s
 	if c.Limit > 0 {
 		s.MaxRequestLength = c.Limit
+	} else if c.Limit < 0 {
+		s.MaxRequestLength = 0 // nothing but the empty request is within the limit
 	}
 	s.Use(core.IOHandler(func(ctx context.Context, request []byte, next core.NextIOHandler) ([]byte, error) {
 		e.mu.Lock()
@@ -118,6 +120,12 @@ func newCallsEnv(t *tr.Writer, c callsCase) *callsEnv {
 			return len(p.Kind)
 		case "custom":
 			panic(struct{ X int }{7})
+		case "nilerror":
+			// an error value whose own Error method panics (a typed nil pointer)
+			var e *c11BadErr
+			panic(e)
+		case "stringer":
+			panic(c11BadStringer{})
 		}
 		return 0
 	}, "boom")
@@ -233,6 +241,16 @@ func abs(x int) int {
 	return x
 }
 
+// c11BadErr is an error whose Error method dereferences its receiver
+type c11BadErr struct{ msg string }
+
+func (e *c11BadErr) Error() string { return e.msg }
+
+// c11BadStringer panics when it is formatted
+type c11BadStringer struct{}
+
+func (c11BadStringer) String() string { panic("String panics") }
+
 func maxPayload(kind string) int {
 	if kind == "udp" {
 		return 65499
@@ -248,6 +266,13 @@ func c12Child(t *tr.Writer, e *callsEnv, c callsCase) {
 		lens := []int{4, 5, 7, 8, 11, 12, 13, 16, 255, 256, 257, 4095, 4096, 4097, 65491, 65495}
 		if c.Kind != "udp" {
 			lens = append(lens, 65499, 65500, 65503, 65535, 65536, 65537, 1<<20-1, 1<<20, 1<<20+1)
+		}
+		big := []int{}
+		if c.Kind == "tcp" || c.Kind == "unix" || c.Kind == "ws" || c.Kind == "http" {
+			big = []int{8<<20 + 3} // a length with bit 23 set
+			if c.Thorough {
+				big = append(big, 16<<20+1, 24<<20-1)
+			}
 		}
 		if !c.Thorough {
 			lens = []int{4, 8, 12, 13, 255, 256, 4096, 65495}
@@ -269,6 +294,9 @@ func c12Child(t *tr.Writer, e *callsEnv, c callsCase) {
 		}
 		for n := range sweep {
 			lens = append(lens, -n) // negative: swept length
+		}
+		for _, n := range big {
+			lens = append(lens, -n) // random bytes only
 		}
 		sort.Slice(lens, func(i, j int) bool { return abs(lens[i]) < abs(lens[j]) })
 		for _, n := range lens {
@@ -449,9 +477,16 @@ func c13Child(t *tr.Writer, e *callsEnv, c callsCase) {
 	cl := e.client()
 	defer cl.Abort()
 	limit := c.Limit
+	if limit < 0 {
+		limit = 0
+	}
 	switch c.Sc {
 	case "honest":
-		for _, n := range []int{limit - 1, limit, limit + 1, 5*limit + 3} {
+		sizes := []int{limit - 1, limit, limit + 1, 5*limit + 3}
+		if limit == 0 {
+			sizes = []int{4, 16}
+		}
+		for _, n := range sizes {
 			if n < 4 || n > maxPayload(c.Kind) {
 				continue
 			}
@@ -632,7 +667,7 @@ func c11Child(t *tr.Writer, e *callsEnv, c callsCase) {
 	}
 	switch c.Sc {
 	case "service-faults":
-		for _, v := range []string{"string", "error", "nil", "custom"} {
+		for _, v := range []string{"string", "error", "nil", "custom", "nilerror", "stringer"} {
 			fault("function-panic-"+v, invoke("boom", v))
 		}
 		fault("invoke-plugin-panic", invoke("pluginboom"))
@@ -799,9 +834,9 @@ func callsCases(prop, tier string, seed int64) []callsCase {
 				out = append(out, callsCase{Prop: prop, Kind: k, Sc: "responses", Seed: seed, Thorough: th})
 			}
 		case "c13":
-			limits := []int{8, 1000}
+			limits := []int{8, 1000, -1} // -1: MaxRequestLength = 0
 			if th {
-				limits = []int{5, 8, 1000, 65499}
+				limits = []int{5, 8, 1000, 65499, -1}
 			}
 			for _, l := range limits {
 				out = append(out, callsCase{Prop: prop, Kind: k, Sc: "honest", Limit: l, Seed: seed})
@@ -872,7 +907,11 @@ func runCalls(a Args, prop string) tr.Summary {
 	}
 	for i, c := range cases {
 		Watch(i+1, tr.Rec{"kind": c.Kind, "sc": c.Sc}, c)
-		t.Reset(i+1, tr.Rec{"prop": c.Prop, "kind": c.Kind, "sc": c.Sc, "limit": c.Limit, "pool": c.Pool, "stream": c.Kind != "udp", "input": c})
+		lim := c.Limit
+		if lim < 0 {
+			lim = 0
+		}
+		t.Reset(i+1, tr.Rec{"prop": c.Prop, "kind": c.Kind, "sc": c.Sc, "limit": lim, "pool": c.Pool, "stream": c.Kind != "udp", "input": c})
 		isolated(t, prop, c, 120*time.Second)
 		t.Emit(tr.Rec{"ev": "end"})
 		if len(sum.Samples) < 5 {
